@@ -7,6 +7,7 @@ mod c06;
 mod c07;
 use c06 as c06_support;
 mod exec;
+mod e2e;
 mod c09;
 mod c11;
 mod c12;
@@ -50,6 +51,7 @@ fn main() {
         ("c02", "exhaust") => c02::cmd_exhaust(rest),
         ("c02", "router") => c02::cmd_router(rest),
         ("exec", "run") => exec::cmd_run(rest),
+        ("e2e", "run") => e2e::cmd_run(rest),
         ("c03", "run") => c03::cmd_run(rest),
         ("c04", "run") => c04::cmd_run(rest),
         ("c05", "run") => c05::cmd_run(rest),
